@@ -7,6 +7,7 @@ import (
 	"fmt"
 	"go/ast"
 	"go/constant"
+	"go/types"
 	"os"
 	"sort"
 	"strings"
@@ -21,6 +22,15 @@ type AppInfo struct {
 	perms map[string][]string
 	err   error
 	repo  string
+	hrp   string
+}
+
+func (a *AppInfo) prefix() string {
+	a.load()
+	if a.hrp == "" {
+		return "cosmos"
+	}
+	return a.hrp
 }
 
 func (a *AppInfo) load() {
@@ -35,6 +45,11 @@ func (a *AppInfo) load() {
 		if len(p.Errors) > 0 {
 			a.err = fmt.Errorf("app package errors: %v", p.Errors[0])
 			return
+		}
+		if o := p.Types.Scope().Lookup("AccountAddressPrefix"); o != nil {
+			if c, ok := o.(*types.Const); ok {
+				a.hrp = constant.StringVal(c.Val())
+			}
 		}
 		perms := map[string][]string{}
 		found := false
